@@ -126,6 +126,8 @@ func validateAlertTypeAndQuery(alertToBeCreated *alertutils.AlertDetails) (strin
 		}
 	case alertutils.AlertTypeMinion:
 		return fmt.Sprintf("Alert Type: %v", alertToBeCreated.AlertType), fmt.Errorf("minion alerts are not supported")
+	default:
+		return fmt.Sprintf("Alert Type: %v", alertToBeCreated.AlertType), fmt.Errorf("alert type is not Logs or Metrics")
 	}
 
 	return "", nil
